@@ -79,7 +79,7 @@ example := (C04_set_value_cells [(a!"_a", a!"_a"), (a!"_b", a!"_B")] (a!"_b") V.
 example := (C04_set_value_invalid_name {} { id := 1, code := [], isBlock := true } (some .na)).2
   { key := a!"x", orig := a!"x", valid := false } rfl
 
--- ---- (7) FINDING: the "documented model" keeps what is inside a destroyed container ----------------------------------------------------
+-- ---- (7) FINDING (repaired in the contract, see below): the "documented model" keeps what is inside a destroyed container ----------------------------------------------------
 -- block b ⊃ frame f ⊃ frame g; an item in f and one in g; then the BLOCK is destroyed.  cif.h: cif_container_destroy "removes the
 -- associated container and all its contents from its managed CIF".  The handles 1 (f) and 2 (g) obtained before stay `inContract`
 -- (valid by state: the orphaned `container` rows exist), so C04_refines_from_start speaks about this history — and the documented
@@ -90,14 +90,22 @@ private def orphan : List Op :=
    .setVal 1 (some (nm (a!"_x"))) (some .na), .setVal 2 (some (nm (a!"_y"))) (some .na),
    .cdestroy 0, .blocks 0, .getVal 1 (some (nm (a!"_x"))), .getVal 2 (some (nm (a!"_y"))), .setVal 2 (some (nm (a!"_z"))) (some .na)]
 
-example : inContractHist {} orphan = true := by decide
+-- REPAIRED (group gL, after review rA A.9): a handle is in contract only if its container is PART OF THE CIF (`Db.inCif`: the row exists
+-- and climbs through save_frame rows to a data block; `CH.okB`).  The destroy itself and the queries on the CIF stay in contract; the
+-- first call through the old handle of f is out of contract — C04_refines no longer speaks about reads / writes inside the destroyed block.
+example : inContractHist {} (orphan.take 8) = true := by decide
+example : inContractHist {} orphan = false := by decide
+example : inContract (run {} (orphan.take 8)).1 (.getVal 1 (some (nm (a!"_x")))) = false := by decide
+example : inContract (run {} (orphan.take 8)).1 (.getVal 2 (some (nm (a!"_y")))) = false := by decide
+example : inContract (run {} (orphan.take 8)).1 (.setVal 2 (some (nm (a!"_z"))) (some .na)) = false := by decide
+-- before the destroy the same handles are in contract
+example : inContract (run {} (orphan.take 6)).1 (.getVal 2 (some (nm (a!"_y")))) = true := by decide
+-- the containers of f and g are no longer part of the CIF, although their rows exist (the store keeps them, as the library does)
+example : ((run {} (orphan.take 7)).1.cifs.map (fun c => c.map (fun s => ([2, 3].map s.db.inCif, [2, 3].map s.db.hasContainer)))) =
+    [some ([false, false], [true, true])] := by decide
 
-example : (specRun {} orphan).map (fun r => r.2.map (·.rc)) =
-    some [some 0, some 0, some 0, some 0, some 0, some 0, some 0, some 0, some 0, some 0, some 0] := by
-  rw [C04_refines_from_start orphan (by decide)]
-  decide
-
-/-- … and in the documented state after the destroy the loops of f and g are still there (2 loops), only the tree view is empty -/
+/-- STILL TRUE (disclosed in tools/props/C04.py PARTIAL): the state-level documented model keeps the unreachable rows after the
+    destroy (2 loops, 2 containers); only the tree view is empty -/
 example : (specRun {} (orphan.take 7)).map (fun r => (r.1.cifs.map (fun c => c.map (fun a => (a.loops.length, a.containers.length, a.tree.length))))) =
     some [some (2, 2, 0)] := by
   rw [C04_refines_from_start (orphan.take 7) (by decide)]
